@@ -356,3 +356,47 @@ func LemmaParsedRenderable(a any) {
 //@   trusted
 //@   props C15 C14
 //@   ensures Builtin(result.Base) && RangAt(result.Base)
+
+// LemmaDecodedBoundaryRenderable: a decoded range boundary (two decoded leaves) can be rendered.
+//
+//@ func LemmaDecodedBoundaryRenderable
+//@   lemma
+//@   props C13
+//@   fuel 1 RenderOK=3
+//@   requires b != nil && expr.IsExpr(b.Min) && expr.IsExpr(b.Max) && expr.DLeaf(reduceE(b.Min)) && expr.DLeaf(reduceE(b.Max))
+//@   ensures  RenderOK(b)
+
+func LemmaDecodedBoundaryRenderable(b *expr.RangeBoundary) {}
+
+// reduceE: the expression held by an interface value.
+func reduceE(a any) *expr.Expression {
+	e, _ := a.(*expr.Expression)
+	return e
+}
+
+// LemmaDecodedRenderable: a decoded tree that passed validation satisfies what
+// Render and RenderParam require (induction over the tree).
+//
+//@ func LemmaDecodedRenderable
+//@   lemma
+//@   structural
+//@   props C13
+//@   fuel 1 DShape=2 DRight=2 ShapeV=2 RenderOK=2
+//@   requires expr.DShape(a) && expr.ShapeV(a)
+//@   ensures  RenderOK(a)
+
+func LemmaDecodedRenderable(a any) {
+	e, ok := a.(*expr.Expression)
+	if !ok || e == nil {
+		return
+	}
+	if le, isE := e.Left.(*expr.Expression); isE {
+		LemmaDecodedRenderable(le)
+	}
+	if re, isE := e.Right.(*expr.Expression); isE {
+		LemmaDecodedRenderable(re)
+	}
+	if b, isB := e.Right.(*expr.RangeBoundary); isB && b != nil {
+		LemmaDecodedBoundaryRenderable(b)
+	}
+}
